@@ -55,7 +55,7 @@ BASE[None] = BASE["low"]
 
 
 def bound(tier):
-    return ("48 lattice points x 6-8 programs x 3 in-process entry points; 48 lattice points x " + ("all" if tier == "thorough" else "2") +
+    return ("48 lattice points (odd ones additionally with --verbose --dump-symbols and an output path in a subdirectory) x 7-9 programs x 3 in-process entry points; 48 lattice points x " + ("all" if tier == "thorough" else "2") +
             " programs as real CLI processes")
 
 
@@ -175,8 +175,11 @@ def _judge(entry, tag, fmt, header, mem_out, rc, path, viol, key_extra):
     return "agrees"
 
 
-def cli_args(fmt, mapping, header, defines, src_path, out_path):
+def cli_args(fmt, mapping, header, defines, src_path, out_path, extras=False):
     args = [src_path, "-o", out_path, "-f", fmt]
+    if extras:
+        # flags that must not change the output
+        args = ["--verbose", "--dump-symbols"] + args
     if mapping is not None:
         args += ["-m", mapping]
     if header:
@@ -264,7 +267,11 @@ def run_inproc(i):
         # --- entry point 2: cli_main in-process
         if os.path.exists("out2.bin"):
             os.remove("out2.bin")
-        argv = ["x816"] + cli_args(fmt, mapping, header, defines, "prog.s", "out2.bin")
+        os.makedirs("outdir", exist_ok=True)
+        out2 = "outdir/out2.bin" if i % 2 else "out2.bin"
+        if os.path.exists(out2):
+            os.remove(out2)
+        argv = ["x816"] + cli_args(fmt, mapping, header, defines, "prog.s", out2, extras=bool(i % 2))
         saved = sys.argv
         sys.argv = argv
         try:
@@ -279,7 +286,7 @@ def run_inproc(i):
         finally:
             sys.argv = saved
         evals += 1
-        res = judge(f"cli:{name}", fmt, header, mem, rc, "out2.bin", viol, ":" + mtag)
+        res = judge(f"cli:{name}", fmt, header, mem, rc, out2, viol, ":" + mtag)
         outcomes.add("cli-" + res)
         if example is None and res == "agrees" and nontrivial:
             example = {"argv": argv, "program": name}
@@ -308,7 +315,7 @@ def run_subproc(i, pick, tier="quick"):
         if os.path.exists("out3.bin"):
             os.remove("out3.bin")
         env = dict(os.environ, PYTHONPATH=impl.REPO, PYTHONDONTWRITEBYTECODE="1")
-        cmd = [sys.executable, "-m", "a816.cli"] + cli_args(fmt, mapping, header, defines, "prog.s", "out3.bin")
+        cmd = [sys.executable, "-m", "a816.cli"] + cli_args(fmt, mapping, header, defines, "prog.s", "out3.bin", extras=bool(i % 2))
         try:
             pr = subprocess.run(cmd, env=env, capture_output=True, timeout=60)
             rc = pr.returncode
